@@ -880,7 +880,7 @@ class C15(Property):
         "decides_setWithKnownFields", "decides_setWithAllFields", "decides_luhn10")]
     generated_obligations = []
     quick_n = 100000
-    thorough_n = 500000
+    thorough_n = 800000
     trusted_base = [
         "the element view (value, u, label, siblings, raw keys, resolved field paths) is read off the real element by the harness and re-asserted on every run",
         "urllib.parse.urlparse/urlunparse and the idna codec are opaque: their results on the element's value are inputs of the model (IsEmail/URL* are covered by correspondence + oracle only)",
